@@ -264,6 +264,8 @@ def variants(action, args, nsteps):
         return [('transfer', o, a, p, b) for a in sf for b in df]
     if action == 'StartStage':
         return [('start_stage', args[0])]
+    if action == 'StartReserved':
+        return [('start_stage', 'all')]
     if action == 'EndStage':
         return [('end_stage', args[0])]
     if action == 'Bake':
